@@ -472,7 +472,8 @@ fail_result.thrift_spec = (
     (0, TType.STRING, 'success', 'UTF8', None, ),  # 0
     (1, TType.STRUCT, 'err', [VerifError, None], None, ),  # 1
     (2, TType.STRUCT, 'other', [OtherError, None], None, ),  # 2
-    (3, TType.STRUCT, 'third', [ThirdError, None], None, ),  # 3
+    None,  # 3  (the IDL skips an id: throws (1: VerifError err, 2: OtherError other, 4: ThirdError third))
+    (4, TType.STRUCT, 'third', [ThirdError, None], None, ),  # 4
 )
 
 
